@@ -24,6 +24,8 @@ pub enum Signal {
     Bump { at: f64, sigma: f64 },
     /// q((n - centre) / scale), coefficients in increasing power
     LocalPoly { coefs: Vec<f64>, centre: f64, scale: f64 },
+    /// unit impulses at the given (sorted) frame indices
+    Impulses { at: Vec<u64> },
 }
 
 #[inline]
@@ -66,6 +68,13 @@ impl Signal {
                     s = s * v + c;
                 }
                 s
+            }
+            Signal::Impulses { at } => {
+                if at.binary_search(&n).is_ok() {
+                    1.0
+                } else {
+                    0.0
+                }
             }
         }
     }
